@@ -418,6 +418,9 @@ def install():
 
     def norm(self, ord=2):
         v = self._val
+        if _isobj(v) and sc.Ctx.cur is None and not any(isinstance(e, (sc.SR, SC)) for e in v.reshape(-1)):
+            # object array of plain numbers outside a symbolic path (replay of a counterexample): ordinary float norm
+            return float(np.linalg.norm(np.asarray(v, dtype=np.complex128).reshape(-1), ord))
         if _isobj(v):
             # np.linalg.norm on object arrays forms x.dot(x) (no conjugation) and forks in max():
             # documented vector norms written out on the elements
